@@ -38,8 +38,17 @@ def make_supply(kind, horizon, rng, mode="random"):
     return sigma[:horizon]
 
 
-def simulate_executor(callbacks, releases, sigma, chains=None, trace=None, polls=None):
+def ex_formula(callbacks, a, b, c):
+    """pseudo-random execution times between 1 and the WCET, as a function of (callback, start
+    slot) — the same formula is evaluated by the Lean driver op `execx`"""
+    return lambda i, t: 1 + ((a * i + b * t + c) % callbacks[i]["cost"])
+
+
+def simulate_executor(callbacks, releases, sigma, chains=None, trace=None, polls=None, ex=None, started=None):
     """callbacks: list of dicts {kind: 'T'|'P', prio: int (smaller = higher), cost: int};
+    ex: optional function (callback, start slot) -> execution time of the instance started then
+    (default: the WCET `cost`; Spec: lean/RTA/RTA/Spec/Ros2ExecX.lean); started: optional list that
+    receives (callback, execution time) for every started instance, in start order;
     releases: list (per callback) of sorted external release times; chains: dict cb -> next cb
     (a completed instance of cb releases an instance of next at its completion time).
     Returns per callback a list of (release, completion) pairs of the instances completed
@@ -78,7 +87,10 @@ def simulate_executor(callbacks, releases, sigma, chains=None, trace=None, polls
                     i = None
             if i is not None:
                 rel = queue[i].pop(0)
-                running = [i, callbacks[i]["cost"], rel]
+                c_act = ex(i, t) if ex is not None else callbacks[i]["cost"]
+                if started is not None:
+                    started.append((i, c_act))
+                running = [i, c_act, rel]
         if running is not None:
             if trace is not None:
                 trace.append((t, running[0], running[2]))
@@ -114,7 +126,21 @@ def simulate_fifo_supply(jobs, sigma):
     return resp
 
 
-def check_timer_legal(callbacks, releases, sigma, trace, i, all_others=False):
+def _instance_costs(callbacks, inst, order, started):
+    """execution time per instance: the m-th started instance of a callback has the recorded
+    time, instances never started keep the WCET"""
+    cost = [callbacks[k]["cost"] for k, _ in inst]
+    if started:
+        seen = {}
+        for k, c in started:
+            m = seen.get(k, 0)
+            seen[k] = m + 1
+            if m < len(order[k]):
+                cost[order[k][m]] = c
+    return cost
+
+
+def check_timer_legal(callbacks, releases, sigma, trace, i, all_others=False, started=None):
     """executable rendering of `SupplyTimerLegal` (lean/RTA/RTA/Lemmas/TimerSound.lean) for the
     analysed timer `i`: checks a trace [(slot, callback, release of the served instance)] of the
     executor model against the five clauses; returns the list of violated clauses (empty = legal).
@@ -135,7 +161,7 @@ def check_timer_legal(callbacks, releases, sigma, trace, i, all_others=False):
     order = {k: [x for x, (kk, _) in enumerate(inst) if kk == k] for k in range(len(callbacks))}
     ptr = {k: 0 for k in range(len(callbacks))}
     svc = [0] * len(inst)
-    cost = [callbacks[k]["cost"] for k, _ in inst]
+    cost = _instance_costs(callbacks, inst, order, started)
     cur = {}           # callback -> instance currently started
     served = {}
     for (t, k, rel) in trace:
@@ -172,7 +198,7 @@ def check_timer_legal(callbacks, releases, sigma, trace, i, all_others=False):
     return sorted(bad)
 
 
-def check_polling_legal(callbacks, releases, sigma, trace, polls):
+def check_polling_legal(callbacks, releases, sigma, trace, polls, started=None):
     """executable rendering of `PollingExecLegal` (lean/RTA/RTA/Lemmas/RrSound.lean): checks a
     trace of the executor model together with its polling points against every clause;
     returns the list of violated clauses (empty = legal)"""
@@ -185,7 +211,7 @@ def check_polling_legal(callbacks, releases, sigma, trace, polls):
                 inst.append((k, r))
     order = {k: [x for x, (kk, _) in enumerate(inst) if kk == k] for k in range(ncb)}
     ptr = {k: 0 for k in range(ncb)}
-    cost = [callbacks[k]["cost"] for k, _ in inst]
+    cost = _instance_costs(callbacks, inst, order, started)
     acc = [0] * len(inst)
     cur = {}
     served = {}
